@@ -234,7 +234,9 @@ func NewTD(rec *Recorder, sc *Scenario) *TD {
 			}
 		}
 		res := "ok"
-		if !ok {
+		if !ok && strings.HasPrefix(out, "err:") && (kind == "pay" || kind == "fold" || kind == "check" || kind == "call" || kind == "allin" || kind == "bet" || kind == "raise" || kind == "pass") {
+			res = "refused" // the rules themselves refuse the move (not an injected failure): nothing was applied
+		} else if !ok {
 			res = "fail"
 			if kind == "readyall" || kind == "ante" || kind == "blinds" || kind == "next" || kind == "create" {
 				d.hmu.Lock()
@@ -1037,6 +1039,27 @@ func (d *TD) exec(o Op) string {
 		id := o.ID
 		if o.Who != "" {
 			id = d.resolveWho(o.Who)
+		}
+		if o.Kind == "illegal" {
+			// a wager kind that is NOT among the mover's allowed actions right now (nothing to try if he may do everything)
+			gs := d.table().State.GameState
+			if gs == nil || gs.Status.CurrentEvent != "RoundStarted" || gs.Status.CurrentPlayer < 0 || gs.Status.CurrentPlayer >= len(gs.Players) {
+				return "skipped"
+			}
+			al := gs.Players[gs.Status.CurrentPlayer].AllowedActions
+			o.Kind = ""
+			for _, k := range []string{"call", "check", "bet", "raise"} {
+				if !has(al, k) {
+					o.Kind = k
+					break
+				}
+			}
+			if o.Kind == "" {
+				return "skipped"
+			}
+			if o.Amt == 0 {
+				o.Amt = 1
+			}
 		}
 		return d.act(id, o.Kind, o.Amt, o.Who)
 	case "sleep":
